@@ -191,7 +191,7 @@ def collect(hs, script, impl, model, judge, hangs, merr):
         rj = gj[k] if k < len(gj) else []
         ops = [l for l in h["lines"] if l and not l.startswith("#")]
         rec = {"h": h, "disagree": None, "judge_fail": None, "panic_hang": [], "undet": False, "nops": len(ops),
-               "judged": sum(1 for l in rj if l.endswith(" ok")), "model_error": merr if (merr and k >= len(gm) - 1) else ""}
+               "judged": sum(1 for l in rj if l.endswith(" ok")), "classes": {}, "model_error": merr if (merr and k >= len(gm) - 1) else ""}
         stop = False
         for j, op in enumerate(ops):
             a = ri[j] if j < len(ri) else None
@@ -205,7 +205,11 @@ def collect(hs, script, impl, model, judge, hangs, merr):
                 rec["disagree"] = {"op_index": j, "op": op, "impl": a[:600], "model": b[:600]}
             if res in ("panic", "hang"):
                 stop = True         # after a panic/hang only the judge's verdict counts
+        rec["classes"] = {}
         for l in rj:
+            m = re.match(r"J (\d+) class (\d+)", l)
+            if m:
+                rec["classes"][int(m.group(1)) - 1] = int(m.group(2))
             if " FAIL " in l and rec["judge_fail"] is None:
                 m = re.match(r"J (\d+) FAIL (.*)", l)
                 j = int(m.group(1)) - 1
